@@ -523,7 +523,11 @@ pub fn gen_c08(rng: &mut Rng) -> Value {
 pub fn gen_c11(rng: &mut Rng) -> Value {
     let nk = rng.range(1, 4) as usize;
     let keys = pick_keys(rng, nk, true);
-    let vals = mk_vals(rng, 2, 0);
+    let mut vals = mk_vals(rng, 2, 0);
+    if rng.chance(1, 12) {
+        // a value handed over in one buffer of several MiB (the default size must be the bytes written)
+        vals[0]["len"] = json!(*rng.pick(&[1_048_577u64, 2_500_000, 4_200_000]));
+    }
     let mut steps = Vec::new();
     let n = rng.range(1, 5);
     for _ in 0..n {
@@ -990,6 +994,11 @@ pub fn gen_c12(rng: &mut Rng) -> Value {
         let ki = rng.idx(nk + 1);
         let vi = rng.idx(3);
         let len = vlen(&vals, vi);
+        // few destination names: extractions meet files left by earlier extractions or put there beforehand
+        let dest = format!("$O/c{}", rng.below(3));
+        if rng.chance(1, 8) {
+            steps.push(json!({"k":"env","act":"write_file","path":dest.clone(),"hex":"ab".repeat(rng.below(40) as usize)}));
+        }
         let st = match rng.below(24) {
             0..=5 => {
                 let wcfg = WriteCfg { by_hash_pct: 20, rich_opts: true, declare_size_pct: 40, algos: true, ends: false };
@@ -1030,11 +1039,11 @@ pub fn gen_c12(rng: &mut Rng) -> Value {
             10 => json!({"k":"api","op":"reader","key":ki,"bufs":[pick_buf(rng, vals.iter().map(|v| v["len"].as_u64().unwrap_or(0)).max().unwrap_or(0))]}),
             11 => json!({"k":"api","op":"metadata","key":ki}),
             12 => json!({"k":"api","op":"exists","addr":{"val":vi,"algo":"sha256"}}),
-            13 => json!({"k":"api","op":"copy","key":ki,"to":format!("$O/c{i}")}),
-            14 => json!({"k":"api","op":"copy_unchecked","key":ki,"to":format!("$O/c{i}")}),
-            15 => json!({"k":"api","op":"copy","addr":{"val":vi,"algo":"sha256"},"to":format!("$O/c{i}")}),
-            16 => json!({"k":"api","op":"hard_link","key":ki,"to":format!("$O/c{i}")}),
-            17 => json!({"k":"api","op":"reflink","key":ki,"to":format!("$O/c{i}")}),
+            13 => json!({"k":"api","op":"copy","key":ki,"to":dest.clone()}),
+            14 => json!({"k":"api","op":"copy_unchecked","key":ki,"to":dest.clone()}),
+            15 => json!({"k":"api","op":"copy","addr":{"val":vi,"algo":"sha256"},"to":dest.clone()}),
+            16 => json!({"k":"api","op":"hard_link","key":ki,"to":dest.clone()}),
+            17 => json!({"k":"api","op":"reflink","key":ki,"to":dest.clone()}),
             18 => json!({"k":"api","op":"remove","key":ki}),
             19 => json!({"k":"api","op":"remove_hash","addr":{"val":vi,"algo":"sha256"}}),
             20 => json!({"k":"api","op":"remove_opts","fully":true,"key":ki}),
